@@ -3,6 +3,7 @@
 // thread) a recorded task runs.  Nothing of pika's scheduling logic lives here.
 #pragma once
 #include <pika/threading_base/register_thread.hpp>
+#include <pika/threading_base/thread_data_stackless.hpp>
 #include <pika/threading_base/thread_pool_base.hpp>
 #include "verif.h"
 
@@ -12,6 +13,9 @@
 
 static pika::threads::detail::thread_function_type verif_spawned[VERIF_MAX_SPAWN];
 static int verif_nspawned;
+static void const* verif_spawned_pool[VERIF_MAX_SPAWN];    // which pool each task was registered on
+static pika::threads::detail::thread_data* verif_created[VERIF_MAX_SPAWN];    // task objects made by create_thread
+static int verif_ncreated;
 static std::size_t verif_pool_workers = 1, verif_local_worker = 0;
 alignas(64) static unsigned char verif_notifier_storage[256];
 alignas(64) static unsigned char verif_affinity_storage[1024];
@@ -41,19 +45,30 @@ struct verif_pool final : pika::threads::detail::thread_pool_base
             reinterpret_cast<pika::detail::affinity_data&>(verif_affinity_storage)))
     {
     }
+    static void unused() { verif_assert(0, "unmodelled thread pool operation used"); verif_assume(0); }
     std::size_t get_os_thread_count() const override { return verif_pool_workers; }
     pika::threads::detail::thread_id_ref_type create_work(pika::threads::detail::thread_init_data& data, ec_t&) override
     {
         verif_assert(verif_nspawned < VERIF_MAX_SPAWN, "harness bound: too many spawned tasks");
+        verif_spawned_pool[verif_nspawned] = this;
         verif_spawned[verif_nspawned++] = std::move(data.func);
         return {};
     }
-    void create_thread(pika::threads::detail::thread_init_data& data, pika::threads::detail::thread_id_ref_type&, ec_t&) override
+    // a real (stackless) task object is created; the harness decides which harness thread runs it and when
+    void create_thread(pika::threads::detail::thread_init_data& data, pika::threads::detail::thread_id_ref_type& id, ec_t&) override
     {
-        verif_assert(verif_nspawned < VERIF_MAX_SPAWN, "harness bound: too many spawned tasks");
-        verif_spawned[verif_nspawned++] = std::move(data.func);
+#ifdef VERIF_POOL_REAL_THREADS
+        verif_assert(verif_ncreated < VERIF_MAX_SPAWN, "harness bound: too many created threads");
+        pika::threads::detail::thread_data* td = pika::threads::detail::thread_data_stackless::create(data, nullptr, 0x8000);
+        intrusive_ptr_add_ref(td);    // the harness keeps the object alive (no scheduler to hand it back to)
+        verif_created[verif_ncreated++] = td;
+        id = pika::threads::detail::thread_id_ref_type(td, pika::threads::detail::thread_id_addref::no);
+#else
+        (void) data;
+        (void) id;
+        unused();    // kernels without real task objects only use create_work
+#endif
     }
-    static void unused() { verif_assert(0, "unmodelled thread pool operation used"); verif_assume(0); }
     bool run(std::unique_lock<std::mutex>&, std::size_t) override { unused(); return false; }
     void stop(std::unique_lock<std::mutex>&, bool) override { unused(); }
     void wait() override { unused(); }
